@@ -124,8 +124,9 @@ def install(E):
             th = ctx.thread
             _check_self(E, m, th, 'map.get' if kind == 'r' else 'map.get_mut')
             s = m.slot_of(E, E.load(a[1]))
-            ev(E, 'map.get' if kind == 'r' else 'map.get_mut', ctx, s.key.idx)
-            if E.decide(E.heap[s.present_cell]):
+            hit = E.decide(E.heap[s.present_cell])
+            ev(E, 'map.get' if kind == 'r' else 'map.get_mut', ctx, s.key.idx, 'hit' if hit else 'miss')
+            if hit:
                 g = Guard(kind, m, s, th)
                 if kind == 'w':
                     m.writer = th
@@ -146,11 +147,12 @@ def install(E):
             th = ctx.thread
             op = 'map.try_get' if kind == 'r' else 'map.try_get_mut'
             s = m.slot_of(E, E.load(a[1]))
-            ev(E, op, ctx, s.key.idx)
             # the shard lock is taken with try_lock: busy (someone holds a conflicting guard, this thread included) => Locked
             busy = (m.writer is not None) or (kind == 'w' and len(m.readers) > 0)
             if busy:
+                ev(E, op, ctx, s.key.idx, 'locked')
                 return Enum('TryResult', 2)
+            ev(E, op, ctx, s.key.idx, 'unlocked')
             if E.decide(E.heap[s.present_cell]):
                 g = Guard(kind, m, s, th)
                 if kind == 'w':
